@@ -3,6 +3,7 @@ From HTA.lib Require Import Base.
 From HTA.model Require Import C17_Model.
 From HTA.gen Require Import DiffRules_gen.
 From HTA.proof Require Import C17_RulesTie C17_Proofs.
+From HTA.proof Require Import Scale C17_Scale.
 Open Scope Z_scope.
 
 Theorem C17_selection_exact : forall frames its dev e,
@@ -58,3 +59,11 @@ Proof. vm_compute. reflexivity. Qed.
 Theorem C17_classes_follow_source : (forall c t, masks c t = masks_gen c t) /\ (forall d, sign d = sign_gen d).
 Proof. split; [exact masks_are_generated | exact sign_is_generated]. Qed.
 Print Assumptions C17_classes_follow_source.
+
+(* resolution independence: durations multiplied by k give the same names with the same counts (hence the same change classes)
+   and k times the total durations; selecting rows by iteration and device commutes with the scaling *)
+Theorem C17_resolution_independent : forall k short c t frames its dev,
+  diff_rows short (scale_evs k c) (scale_evs k t) = map (sdr k) (diff_rows short c t) /\
+  sel (map (scale_evs k) frames) its dev = scale_evs k (sel frames its dev).
+Proof. intros. split; [apply C17_scale | apply sel_scale]. Qed.
+Print Assumptions C17_resolution_independent.
